@@ -1,5 +1,6 @@
 import ZipVerif.Lemmas.Layers
 import ZipVerif.Lemmas.EntryBridge
+import ZipVerif.Lemmas.ShortRead
 /-
 C09 — Results do not depend on how I/O is chunked.
 Property theorems only; helper lemmas are in `Lemmas/Layers.lean`, the model in `Model/Layers.lean`.
@@ -349,6 +350,55 @@ theorem codecFor_available (ext : Model.Ext) :
   ⟨fun C hst => Model.codecFor_stored ext hst C,
    fun m c encode p hc hdec => Model.codecFor_intact ext m c encode hc p hdec⟩
 
+/-! ## Metadata under short reads of the underlying reader (finding F9(2))
+
+The reader model's monad runs over a never-short `Cursor`.  `Model/ShortRead.lean` runs the SAME
+parsers (`G.openArchive` … written generically over their I/O vocabulary and proved EQUAL to the
+model's parsers at `M`: `G.openArchive_M`) over the same device with an arbitrary short-read schedule
+`sch` (call number `k` delivers at most `max (sch k) 1` bytes, i.e. any non-empty prefix of what is
+available) and the real `read_exact` retry loop. -/
+
+/-- **The metadata do not depend on how the underlying reader splits its reads.**  For every byte
+string and every short-read schedule, `ZipArchive::new` over the short-reading reader ends exactly as
+over the `Cursor`: the same archive value (entries in order, offset, comment) or the same error, and
+the reader is left on the same bytes at the same position. -/
+theorem open_archive_short_read_independent (bs : Bytes) (sch : Nat → Nat) :
+    ∃ o d' sd', Model.openArchive none (Model.Dev.ofBytes bs) = (o, d') ∧
+      (Model.G.openArchive : Model.MS Model.Archive) sch (Model.Dev.ofBytes bs) = (o, sd') ∧
+      sd'.buf = d'.buf ∧ sd'.pos = d'.pos := by
+  have h := Model.G.sim_openArchive.elim sch (Model.Dev.ofBytes bs) (Model.Dev.ofBytes bs) ⟨rfl, rfl⟩
+  rw [Model.G.openArchive_M] at h
+  exact h
+
+/-- Two schedules give the same view. -/
+theorem open_archive_schedules_agree (bs : Bytes) (sch₁ sch₂ : Nat → Nat) :
+    ((Model.G.openArchive : Model.MS Model.Archive) sch₁ (Model.Dev.ofBytes bs)).1 =
+      ((Model.G.openArchive : Model.MS Model.Archive) sch₂ (Model.Dev.ofBytes bs)).1 := by
+  obtain ⟨o₁, _, _, e₁, f₁, _⟩ := open_archive_short_read_independent bs sch₁
+  obtain ⟨o₂, _, _, e₂, f₂, _⟩ := open_archive_short_read_independent bs sch₂
+  rw [f₁, f₂]
+  rw [e₁] at e₂
+  exact (Prod.mk.inj e₂).1
+
+/-- The local-header reads of `by_index` (`find_content`) likewise: same data start or same error,
+from any state of the reader, and the reader is left at the same position - where the entry's data
+path (`archive_entry_chunk_independent`) takes over, for which the short-reading device is one of
+the readers (`short_device_denotes`). -/
+theorem find_content_short_read_independent (f : Model.FileData) (sch : Nat → Nat)
+    (d sd : Model.Dev) (hb : sd.buf = d.buf) (hp : sd.pos = d.pos) :
+    ∃ o d' sd', Model.findContent f none d = (o, d') ∧
+      (Model.G.findContent f : Model.MS Nat) sch sd = (o, sd') ∧
+      sd'.buf = d'.buf ∧ sd'.pos = d'.pos := by
+  have h := (Model.G.sim_findContent f).elim sch d sd ⟨hb, hp⟩
+  rw [Model.G.findContent_M] at h
+  exact h
+
+/-- The short-reading device as a reader of the layer model: delivers the bytes behind its position,
+then a clean end of file, under every schedule. -/
+theorem short_device_denotes (sch : Nat → Nat) (d : Model.Dev) :
+    Denotes (Model.shortSrc sch) d (d.buf.drop d.pos) .eof :=
+  Model.shortSrc_denotes sch d
+
 /-! ## Defect D1 (fixed by c83eb5a): the old ZipCrypto reader was not chunk independent -/
 
 /-- Two underlying readers holding the same two ciphertext bytes - one hands them over together, the
@@ -521,5 +571,13 @@ example :
     Model.openReadBoth Model.oneEntry 0 [1] [0, 3, 0, 3] = some (31, [0x5a], some ([0x5a], .eof)) ∧
     Model.openReadBoth Model.oneEntry 0 [5] [1, 1, 1] = some (31, [0x5a], some ([0x5a], .eof)) := by
   refine ⟨by decide +kernel, by decide +kernel⟩
+
+/-- `open_archive_short_read_independent` observed on the 101-byte archive: one byte per call and the
+`Cursor` give the same single entry `a` and end at the same position; the short-reading run needed
+more calls (so short reads did occur). -/
+example :
+    (Model.openBoth Model.oneEntry (fun _ => 1)).map (fun r => (r.1, r.2.1, r.2.2.1.2 == r.2.2.2.2,
+      decide (r.2.2.1.1 < r.2.2.2.1))) = some ([[0x61]], [[0x61]], true, true) := by
+  decide +kernel
 
 end ZipVerif.Props.C09
